@@ -7,7 +7,7 @@ mkdir -p build/ml
 cd coq
 [ -f Makefile ] || coq_makefile -f _CoqProject -o Makefile >/dev/null
 # only what the executable model needs: a broken proof file must not stop the model from running
-timeout 3000 make -j16 gen/HashGen.vo gen/MemOrders.vo Core.vo Api.vo Spec.vo CApi.vo Conc.vo MemDefs.vo "$@" > ../build/coq_make.log 2>&1 || { tail -30 ../build/coq_make.log; exit 1; }
+timeout 3000 make -j16 gen/HashGen.vo gen/MemOrders.vo Core.vo Api.vo Spec.vo CApi.vo Codec.vo CodecW.vo Conc.vo MemDefs.vo "$@" > ../build/coq_make.log 2>&1 || { tail -30 ../build/coq_make.log; exit 1; }
 cd ../build/ml
 if [ ! -f model_driver ] || [ -n "$(find ../../coq -maxdepth 2 -name '*.vo' -newer model_driver -print -quit)" ] || [ ../../ocaml/driver.ml -nt model_driver ] || [ ../../coq/Extract.v -nt model_driver ]; then
   cp ../../coq/Extract.v . && coqc -Q $V/coq LC Extract.v > extract.log 2>&1 || { cat extract.log; exit 1; }
